@@ -36,6 +36,7 @@ ALL_SWITCHES = ["special-set-html5lib", "ruby-no-rb-rtc", "aaa-html5lib", "comma
 
 
 LOOPS = []
+SHARED = {}
 
 
 def model(text, ctx_el, scripting, switches):
@@ -60,6 +61,21 @@ def judge(ctx, case, fam="?"):
         ctx.count("parse_raised")
         ctx.add("parse_exceptions", type(e).__name__)
         return
+    # "a function of the input and the documented options alone": the same call on a long-lived parser object
+    try:
+        sp = SHARED.get("p")
+        if sp is None:
+            from html5lib import html5parser
+            sp = SHARED["p"] = html5parser.HTMLParser(h5.tb("etree-full"))
+        if cont is not None:
+            got2 = h5.canon_of(sp.parseFragment(data, container=cont, scripting=scr), "etree")
+        else:
+            got2 = h5.canon_of(sp.parse(data, scripting=scr), "etree-full")
+        ctx.count("reused_parser_compared")
+        if got2 != got:
+            ctx.violation("depends-on-call-history", case, "reused parser: %s" % canon.diff_text(got, got2, "fresh", "reused"))
+    except Exception:
+        SHARED["p"] = None
     nel = sum(1 for e in got if e[0] == "S")
     ctx.case([data, cont, scr], nontrivial=nel >= 7 or len(data) > 20)
     ctx.count("cases:" + fam)
